@@ -201,6 +201,8 @@ class DSession:
         self.config.hook.pytest_testnodedown(node=node, error=None)
         if node.workeroutput["exitstatus"] == 2:  # keyboard-interrupt
             self.shouldstop = f"{node} received keyboard-interrupt"
+            # stop dispatching before the node's remaining tests are handed out
+            self.triggershutdown()
             self.worker_errordown(node, "keyboard-interrupt")
             return
         shouldfail = node.workeroutput["shouldfail"]
